@@ -3,5 +3,5 @@ Require Import ExtrOcamlBasic.
 From Pygls Require Import Model.Exceptions Spec.ExceptionsSpec Gen.ExcTable.
 Extraction Language OCaml.
 Extraction "../ocaml/gen/c07_model.ml"
-  current_table base_entry supports_code construct to_response_error from_error server_reply
+  current_table base_entry supports_code construct to_response_error from_error server_reply session_replies
   table_ok ctors_ok has_server_range server_classes_ok spec_class spec_requester spec_server server_guard.
